@@ -254,23 +254,6 @@ def reglue_pairs(ctx, g):
     ctx.floor("reglue call sites with a literal pair list", n_lit, 6)
 
 
-def apply_closure(facts, clo, args, g):
-    """the closure's return-value origin with captures and its own arguments substituted (one bottom-up pass: no name capture)"""
-    cp = closure_parts(clo)
-    if cp is None or cp[0] not in facts.bodies:
-        return None
-    cb = facts.bodies[cp[0]]
-    caps = [norm(c, g) for c in cp[1]]
-
-    def f(n):
-        if n[0] == "field" and n[1][0] == "param" and n[1][1] == 1 and str(n[2]).isdigit() and int(n[2]) < len(caps):
-            return caps[int(n[2])]
-        if n[0] == "param" and n[1] >= 2 and n[1] - 2 < len(args):
-            return args[n[1] - 2]
-        return None
-    return map_term(norm(cb.local_origin(0), g), f)
-
-
 def as_index(t):
     t = strip(t)
     if t[0] == "index":
